@@ -1,6 +1,6 @@
 #!/bin/sh
 # usage: benign.sh [NN ...] -- applies each behaviour-preserving patch of /verif/benign to a scratch clone of /repo
-# and runs every registered quick check on it; any VIOLATION line is a false alarm.
+# and runs every registered quick check on it (or those listed in benign/<NN>.props); any VIOLATION line is a false alarm.
 export GOFLAGS=-mod=mod GOPROXY=off GOSUMDB=off GOTOOLCHAIN=local
 S=$(mktemp -d /tmp/benign.XXXXXX)
 git clone -q /repo "$S/repo" || exit 2
@@ -11,7 +11,10 @@ claimed=$(python3 -c "import json;print(' '.join(c['property_id'] for c in json.
 for m in $ids; do
   ( cd "$S/repo" && git reset -q --hard HEAD && git clean -fdq && (git apply /verif/benign/$m.diff 2>/dev/null || git apply -3 /verif/benign/$m.diff 2>/dev/null) ) || { echo "$m: PATCH DOES NOT APPLY"; continue; }
   res=""
-  for q in $claimed; do
+  props="$claimed"
+  # benign/<NN>.props (optional): the properties whose functions the patch touches; default all
+  [ -f /verif/benign/$m.props ] && props=$(cat /verif/benign/$m.props)
+  for q in $props; do
     out=$(GOCV_EVIDENCE_DIR="$S/ev" /verif/bin/gocv check -repo "$S/repo" -prop $q -tier quick 2>&1)
     v=$(echo "$out" | grep -c "^VIOLATION")
     u=$(echo "$out" | grep -c "^UNDECIDED\|^UNBOUND")
